@@ -125,6 +125,9 @@ func runC38(c *core.Ctx) {
 				return false, false
 			}
 			side := func(x, y ssa.Value) bool {
+				// the sum may be written inline or be what a range helper (blockRange) returns
+				x, release := valueVia(x)
+				defer release()
 				add, ok := ir.Strip(x).(*ssa.BinOp)
 				if !ok || add.Op != token.ADD {
 					return false
@@ -152,21 +155,7 @@ func runC38(c *core.Ctx) {
 			return false, false
 		})
 		eng.Dominates(c, "C38.addblock", fn, full, storeSinks(evicts, "eviction"), "eviction of the oldest block", nil)
-		empty := cmpGuard("len(blocks) == 0", func(b *ssa.BinOp) (bool, bool) {
-			if !lenOfSelfField(b.X, recv, "blocks") {
-				return false, false
-			}
-			if k, ok := ir.ConstInt(b.Y); !ok || k != 0 {
-				return false, false
-			}
-			switch b.Op {
-			case token.EQL:
-				return true, true
-			case token.NEQ:
-				return true, false
-			}
-			return false, false
-		})
+		empty := relGuard("len(blocks) == 0", func(v ssa.Value) bool { return lenOfSelfField(v, recv, "blocks") }, isConstInt(0), token.EQL)
 		eng.Dominates(c, "C38.addblock", fn, empty, storeSinks(inits, "baseHeight = block height"), "base height initialisation", nil)
 		// pairing in the same basic block
 		for _, e := range evicts {
@@ -213,14 +202,23 @@ func runC38(c *core.Ctx) {
 			elems := eng.VariadicElems(call.Common().Args[1])
 			okSet := false
 			if len(elems) == 1 {
-				if mk, isMk := ir.Strip(elems[0]).(*ssa.MakeMap); isMk {
-					loops := eng.FindSliceLoops(fn, func(v ssa.Value) bool {
+				// the set is built in AddBlock itself or by a helper handed block.Transactions
+				setVal, releaseSet := valueVia(elems[0])
+				defer releaseSet()
+				host := fn
+				if setVal != elems[0] {
+					if in, isIn := setVal.(ssa.Instruction); isIn {
+						host = in.Parent()
+					}
+				}
+				if mk, isMk := ir.Strip(setVal).(*ssa.MakeMap); isMk {
+					loops := eng.FindSliceLoops(host, func(v ssa.Value) bool {
 						bb, f, okf := fieldLoad(v)
 						return okf && f == "Transactions" && ir.Strip(bb) == ssa.Value(blockP)
 					})
 					c.Floor("loop over block.Transactions in AddBlock", len(loops), 1)
 					for _, lp := range loops {
-						okSet = eng.IterationMustExec(c, "C38.addblock", fn, lp.Header, lp.Body, "the loop over block.Transactions", "set[tx.Hash()] = true", func(in ssa.Instruction) bool {
+						okSet = eng.IterationMustExec(c, "C38.addblock", host, lp.Header, lp.Body, "the loop over block.Transactions", "set[tx.Hash()] = true", func(in ssa.Instruction) bool {
 							mu, ok := in.(*ssa.MapUpdate)
 							if !ok || mu.Map != ssa.Value(mk) {
 								return false
@@ -238,14 +236,19 @@ func runC38(c *core.Ctx) {
 							if !isIa {
 								return false
 							}
-							bb, f, okf := fieldLoad(ia.X)
+							bb, f, okf := fieldLoad(ir.Resolve(ia.X))
 							kb, isK := ir.ConstBool(mu.Value)
 							return okf && f == "Transactions" && ir.Strip(bb) == ssa.Value(blockP) && isK && kb
 						})
 						// the append happens after the loop
-						eng.Dominates(c, "C38.addblock", fn, eng.NamedGuard{Name: "loop over block.Transactions finished", G: func(cd ir.Cond) (bool, bool) {
+						finished := eng.NamedGuard{Name: "loop over block.Transactions finished", G: func(cd ir.Cond) (bool, bool) {
 							return cd.If == lp.Cond, false
-						}}, storeSinks(appends, "append to blocks"), "append to blocks", nil)
+						}}
+						if host == fn {
+							eng.Dominates(c, "C38.addblock", fn, finished, storeSinks(appends, "append to blocks"), "append to blocks", nil)
+						} else {
+							eng.Dominates(c, "C38.addblock", host, finished, ir.SuccessSinks(host), "return of the finished set", nil)
+						}
 					}
 				}
 			}
